@@ -31,10 +31,10 @@ def hashseeds(tier):
 
 def regular_operands(tier, seed, work, stats):
     ops = []
-    for kind in ("enfa", "nfa", "dfa"):
-        states = core.tlc_dump("FAGen", c01.gen_cfg(kind, 2, 2, 0, invariants=False, maxs=2, maxf=2), work, stats=stats,
-                               name="FAGen-%s-q2-t2" % kind)
-        states = c01.sample(states, 1, seed)
+    for kind, nq, mt, k in (("enfa", 2, 2, 1), ("nfa", 2, 2, 1), ("dfa", 2, 2, 1), ("nfa", 3, 3, 40)):
+        states = core.tlc_dump("FAGen", c01.gen_cfg(kind, nq, mt, 0, invariants=False, maxs=2, maxf=2), work, stats=stats,
+                               name="FAGen-%s-q%d-t%d" % (kind, nq, mt))
+        states = c01.sample(states, k, seed)
         for st in states:
             calls = tlaparse.to_json(st["hist"])
             if calls:
@@ -64,7 +64,8 @@ def generate(tier, seed, work, stats):
             k += 1
     for c in pcases:
         for _ in range(per):
-            cases.append(dict(kind="pda", hist=c["hist"], spool=c["spool"], kpool=c["kpool"], operand=ops[k % len(ops)], L=3, family="pairs"))
+            cases.append(dict(kind="pda", hist=c["hist"], spool=c["spool"], kpool=c["kpool"], operand=ops[k % len(ops)],
+                              operand2=ops[(k * 7 + 3) % len(ops)], L=3, family="pairs"))
             k += 1
     for i in range(40):
         c = dict(cases[i * 7 % len(cases)])
@@ -127,6 +128,19 @@ def replay(case):
             ev["exc"] = r[1] if r[0] == "exc" else "Timeout"
             ev["msg"] = r[2] if r[0] == "exc" else ""
         evs.append(ev)
+        # a second grammar sharing the Variable objects of the first (reverse() keeps them), intersected afterwards:
+        # indices left on shared objects by the first call must not leak into the second
+        rr = guard.call(g.reverse, timeout=3.0)
+        if r[0] == "ok" and rr[0] == "ok":
+            g2 = rr[1]
+            r2 = guard.call(g2.intersection, obj, timeout=5.0)
+            ev2 = {"op": "cfg_intersection", "G": cfgh.project(g2), "A": A, "words": tw, "L": Lw, "rkind": case["operand"]["rkind"], "second": True}
+            if r2[0] == "ok":
+                ev2["R"] = cfgh.project(r2[1])
+            else:
+                ev2["exc"] = r2[1] if r2[0] == "exc" else "Timeout"
+                ev2["msg"] = r2[2] if r2[0] == "exc" else ""
+            evs.append(ev2)
     else:
         p, spec = pdah.build(case["hist"], case["spool"], case["kpool"])
         P = pdah.project(p)
@@ -138,6 +152,19 @@ def replay(case):
             ev["exc"] = r[1] if r[0] == "exc" else "Timeout"
             ev["msg"] = r[2] if r[0] == "exc" else ""
         evs.append(ev)
+        # chained: (pda & r1) & r2 must be pda & (r1 & r2); the second operand is the first one reversed
+        if r[0] == "ok":
+            obj2, A2 = make_operand(case["operand2"]) if case.get("operand2") else (None, None)
+            if obj2 is not None:
+                P1 = pdah.project(r[1])
+                r2 = guard.call(r[1].intersection, obj2, timeout=5.0)
+                ev2 = {"op": "pda_intersection", "P": P1, "A": A2, "words": tw, "L": Lw, "rkind": case["operand2"]["rkind"], "chained": True}
+                if r2[0] == "ok":
+                    ev2["R"] = pdah.project(r2[1])
+                else:
+                    ev2["exc"] = r2[1] if r2[0] == "exc" else "Timeout"
+                    ev2["msg"] = r2[2] if r2[0] == "exc" else ""
+                evs.append(ev2)
     return evs
 
 
